@@ -401,6 +401,8 @@ enum Fault {
     GoalFailsFrom(usize, u8),
     Bias(f64),
     EmptyStarts,
+    /// the public goal_bias field is assigned AFTER setup: constructed with .0, set to .1 before the solves
+    BiasAfterSetup(f64, f64),
     /// a degenerate value of one of the planner's public numeric parameters: 0 = extension step
     /// (connection radius for PRM), 1 = RRT* rewiring radius, 2 = PRM build time
     Param(u8, f64),
@@ -413,6 +415,7 @@ fn run_fault<K: Kit>(sc0: &Scenario, f: &Fault, rep: &mut Report) {
     match f {
         Fault::GoalFailsAt(..) | Fault::GoalFailsFrom(..) => sc.params.bias = 1.0,
         Fault::Bias(b) => sc.params.bias = *b,
+        Fault::BiasAfterSetup(b, _) => sc.params.bias = *b,
         Fault::Param(0, v) => sc.params.step = *v,
         Fault::Param(1, v) => sc.params.radius = *v,
         _ => {}
@@ -428,6 +431,7 @@ fn run_fault<K: Kit>(sc0: &Scenario, f: &Fault, rep: &mut Report) {
         Fault::Bias(b) => format!("goal-bias={b}"),
         Fault::EmptyStarts => "empty-start-list".to_string(),
         Fault::Param(w, v) => format!("{}={v}", ["step", "search-radius", "build-time"][*w as usize]),
+        Fault::BiasAfterSetup(a, b) => format!("goal-bias={a}-then-{b}-after-setup"),
     };
     let r = guarded(|| {
         let mut rig = Rig::<K>::new(&sc, false);
@@ -441,8 +445,16 @@ fn run_fault<K: Kit>(sc0: &Scenario, f: &Fault, rep: &mut Report) {
         let pd = if matches!(f, Fault::EmptyStarts) { Arc::new(Pd::<K> { space: rig.space.clone(), start_states: vec![], goal: rig.goal.clone() }) } else { rig.pd.clone() };
         let mut results: Vec<String> = Vec::new();
         rig.drv.setup(pd, rig.world.clone());
+        if let Fault::BiasAfterSetup(_, b) = f {
+            rig.drv.set_goal_bias(*b);
+            if *b >= 1.0 {
+                // every draw now comes from the goal sampler
+                rig.goal.script.borrow_mut().extend(std::iter::repeat(0u8).take(64));
+                rig.goal.mode.set(crate::seams::GoalMode::Cycle);
+            }
+        }
         // long scripts: the fault, not exhaustion, must end the call
-        let letters: Vec<u8> = ak.build.iter().cycle().take(if matches!(f, Fault::Param(..)) { 40 } else { 12 }).cloned().collect();
+        let letters: Vec<u8> = ak.build.iter().cycle().take(if matches!(f, Fault::Param(..) | Fault::BiasAfterSetup(..)) { 40 } else { 12 }).cloned().collect();
         rig.space.push_script(&letters);
         if pk == Pk::Prm {
             rig.drv.set_prm_timeout(if let Fault::Param(2, v) = f { *v } else { crate::drv::iters_secs(8) });
@@ -503,6 +515,17 @@ fn run_fault<K: Kit>(sc0: &Scenario, f: &Fault, rep: &mut Report) {
                 }
                 // an out-of-range parameter or an empty start list is reported as an error by every
                 // solve call (neither a path nor a mere timeout)
+                if let Fault::BiasAfterSetup(_, b) = f {
+                    // what counts is the value the field has when solve is called
+                    let valid_now = (0.0..=1.0).contains(b);
+                    rep.count("bias_after_setup_cases", 1);
+                    let bad = if valid_now { results.iter().any(|r| r != "Ok" && r != "Timeout") } else { results.iter().any(|r| r == "Ok" || r == "Timeout") };
+                    if bad {
+                        rep.violate(format!("C08|{name}|misuse-not-reported|{class}"), format!("{class}: solve answered {results:?} ({})", if valid_now { "every parameter is valid when solve is called" } else { "the bias is out of range when solve is called" }), || {
+                            json!({"kind": "fault", "prop": "C08", "scenario": sc.json(), "fault": format!("{f:?}"), "results": results})
+                        });
+                    }
+                }
                 if matches!(f, Fault::Bias(_) | Fault::EmptyStarts) {
                     let solves = if pk == Pk::Prm { &results[1..] } else { &results[..] };
                     rep.count("misuse_solves_checked", solves.len() as u64);
@@ -583,6 +606,9 @@ pub fn explore(prop: &'static str, tier: &'static str) -> Report {
             faults.push(Fault::Bias(b));
         }
         faults.push(Fault::EmptyStarts);
+        for (a, b) in [(0.05, 1.5), (0.0, -0.1), (0.05, f64::NAN), (1.5, 0.05), (-0.1, 0.0), (f64::NAN, 0.5)] {
+            faults.push(Fault::BiasAfterSetup(a, b));
+        }
         // degenerate numeric parameters: whatever a planner makes of them, every call comes back without unwinding
         for v in [0.0, -0.5, 1e-18, f64::MIN_POSITIVE, f64::INFINITY, f64::NAN] {
             faults.push(Fault::Param(0, v));
@@ -598,7 +624,7 @@ pub fn explore(prop: &'static str, tier: &'static str) -> Report {
             .par_iter()
             .map(|(sc, f)| {
                 let mut rep = Report::new();
-                if sc.params.pk == Pk::Prm && matches!(f, Fault::GoalFailsAt(..) | Fault::GoalFailsFrom(..) | Fault::Bias(_)) {
+                if sc.params.pk == Pk::Prm && matches!(f, Fault::GoalFailsAt(..) | Fault::GoalFailsFrom(..) | Fault::Bias(_) | Fault::BiasAfterSetup(..)) {
                     return rep; // PRM has neither goal sampling nor a bias
                 }
                 match f {
